@@ -14,6 +14,8 @@ vars == <<par, chk>>
 At(k, n, i) == [k |-> k, n |-> n, i |-> i, a |-> <<>>]
 At2(k, n, i, a) == [k |-> k, n |-> n, i |-> i, a |-> a]
 Tm(c, f) == [c |-> c, f |-> f]
+Op1(k, u) == [k |-> k, n |-> "", i |-> 0, a |-> <<u>>]
+Op2(k, n, u, v) == [k |-> k, n |-> n, i |-> 0, a |-> <<u, v>>]
 St(tk, tn, tc, op, lets, e) == [tk |-> tk, tn |-> tn, tc |-> tc, op |-> op, lets |-> lets, e |-> e]
 Sym(n) == At("sym", n, 0)
 SymK(n, k) == At("sym", n, k)
@@ -21,7 +23,7 @@ NoHooks == [py_initialize |-> <<>>, initialize |-> <<>>, initialize_pair |-> <<>
             loop_all |-> <<>>, loop |-> <<>>, post_loop |-> <<>>, reduce |-> <<>>]
 Body(attrs, h) == [k \in DOMAIN NoHooks \cup {"attrs"} |->
                       IF k = "attrs" THEN attrs ELSE IF k \in DOMAIN h THEN h[k] ELSE <<>>]
-Attrs(ca, ci, cv) == [ca |-> ca, ci |-> ci, cv |-> cv]
+Attrs(ca, ci, cv) == [ca |-> ca, ci |-> ci, cv |-> cv, cj |-> 2, ni |-> -2, nj |-> -7, be |-> 32]
 Grp(gid, real, it, n, eqs) ==
     [gid |-> gid, real |-> real, start |-> 0, stop |-> -1, sprop |-> FALSE, pprop |-> FALSE,
      iterate |-> it, minit |-> n, maxit |-> n, hascond |-> FALSE, haspre |-> FALSE,
@@ -40,7 +42,27 @@ P1 == [prog |-> <<Grp(10, TRUE, FALSE, 1,
                       St("dp", "p1", 1, "add", <<>>,
                          <<Tm(1, <<Sym("WI")>>), Tm(-1, <<Sym("WJ"), At("atv", "cv", 1)>>)>>)>>,
            post_loop |-> <<St("dp", "p0", 0, "nc", <<>>,
-                              <<Tm(1, <<At("dt", "", 0), At("at", "ci", 0)>>)>>)>>])]]
+                              <<Tm(1, <<At("dt", "", 0), At("at", "ci", 0)>>)>>),
+                           \* the arithmetic operators
+                           St("dp", "p1", 0, "add", <<>>,
+                              <<Tm(1, <<Op2("pow", "", At("il", "", 2), At("at", "ci", 0))>>),
+                                Tm(1, <<Op2("pow", "", At("dp", "v", 0), At("at", "cj", 0))>>),
+                                Tm(1, <<Op2("mod", "", At("dp", "v", 0), At("il", "", 3))>>),
+                                Tm(1, <<Op2("mod", "", At("at", "ci", 0), At("at", "ni", 0))>>),
+                                Tm(1, <<Op2("fdiv", "", At("at", "nj", 0), At("at", "cj", 0))>>),
+                                Tm(1, <<Op2("fdiv", "", At("dp", "v", 0), At("c", "", 2))>>),
+                                Tm(1, <<Op2("max", "", At("dp", "v", 0), At("at", "ci", 0))>>),
+                                Tm(1, <<Op2("min", "", At("dp", "w", 0), At("at", "ca", 0))>>),
+                                Tm(2, <<Op2("cmp", "lt", At("dp", "v", 0), At("dp", "w", 0))>>),
+                                Tm(2, <<Op2("cmp", "ge", At("dp", "u", 0), At("il", "", 1))>>),
+                                Tm(1, <<Op2("and", "", At("dp", "u", 0), At("at", "ca", 0))>>),
+                                Tm(1, <<Op2("or", "", At("dp", "u", 0), At("at", "ca", 0))>>),
+                                Tm(3, <<Op1("not", At("dp", "u", 0))>>),
+                                Tm(1, <<Op1("abs", At("dp", "v", 0))>>),
+                                Tm(1, <<Op1("uneg", At("dp", "m", 0))>>),
+                                Tm(5, <<At("ovf", "", 0)>>)>>),
+                           St("dp", "q0", 0, "radd", <<>>,
+                              <<Tm(3, <<Op2("powq", "", At("il", "", 2), At("at", "ni", 0))>>)>>)>>])]]
 \* P2: two destinations, gradients, helpers, matrix, rational symbols
 P2 == [prog |-> <<Grp(10, FALSE, FALSE, 1,
                       <<Eq(1, 0, <<1>>, <<"loop">>), Eq(2, 1, <<0, 1>>, <<"initialize", "loop">>)>>)>>,
@@ -222,7 +244,10 @@ Theorems(x) ==
                  /\ OrderDiff(NProg(x.prog), rev, log) = 0,
         \* integer division: the truncating semantics gives another state
         \* exactly for the program that divides two integers inexactly (P2)
-        cdiv |-> (EvalLogM(x, log, nb, TRUE) # W) = (x.prog = Programs[2].prog),
+        cdiv |-> /\ (EvalLogM(x, log, nb, {"div"}) # W) = (x.prog = Programs[2].prog)
+                 \* ... and % / // / long products exactly in P1 (negative operands)
+                 /\ (EvalLogM(x, log, nb, {"floor"}) # W) = (x.prog = Programs[1].prog)
+                 /\ (EvalLogM(x, log, nb, {"ovf"}) # W) = (x.prog = Programs[1].prog),
         inrange |-> ~W.bad,
         \* frame: properties no statement targets (all base properties) are unchanged
         frame |-> \A a \in 0..1 :
